@@ -82,4 +82,6 @@ FIXED_BY_SUBJECT = {
    ('C17', 'DER SET member order differed between a Python mapping and the value object for nested untagged CHOICE members')],
  "fix: chunked encoding of a bare BIT STRING value kept the schema's tags on every fragment": [
    ('C17', 'CER of a long bit string given as Python value with a tagged asn1Spec differed from the value object encoding')],
+ "fix: CER/DER SET with a SET OF/SEQUENCE OF open-type member lost the ANY tags": [
+   ('C18', 'CER/DER SET { ... blob SET OF [n] ANY DEFINED BY ... } wrote the typed elements without the ANY tag')],
 }
